@@ -701,7 +701,7 @@ func (g *Gen) MutatedParallel(pid int) *ps.Program {
 			continue
 		}
 		for _, s := range p.Slices {
-			s.End, s.Idx = false, s.Idx
+			s.End = false
 		}
 		for _, m := range p.Maps {
 			m.End = false
